@@ -68,6 +68,9 @@ pub fn panic_class(msg: &str) -> String {
     format!("panic: {} @ {}", t, file)
 }
 
+/// draws a single step may take from the default RNG script before it is reported as a hang
+pub static DRAW_HORIZON: std::sync::atomic::AtomicUsize = std::sync::atomic::AtomicUsize::new(100_000);
+
 pub struct Real {
     pub iset: InstructionSet,
     pub icache: InstructionCache,
@@ -110,7 +113,7 @@ pub fn step_once(real: &mut Real, m0: &M) -> Outcome {
         pushr::push::graph::verif_set_node_counter(crate::refmodel::next_node_id());
         pushr::push::verif::install_clock(0);
         // RNG answers come from the default script (a fixed Weyl sequence): every execution is replayable
-        pushr::push::verif::install_script(vec![], 100_000);
+        pushr::push::verif::install_script(vec![], DRAW_HORIZON.load(std::sync::atomic::Ordering::Relaxed));
         PushInterpreter::step(&mut st, iset, icache);
         observe(&st)
     });
